@@ -117,6 +117,29 @@ def case_sex(run, i):
             fn()
         except Exception as exc:
             run.violate("sex-workload", f"sex-call-raises-{type(exc).__name__}", f"{exc!r}", truth)
+    if i % 6 == 3:
+        # `call --center EST [--drop-low-coverage]`: the estimator and the low-coverage switch must reach center_all (per-chromosome mode)
+        import os
+        from skgenome import tabio
+        from cnvlib.cnary import CopyNumArray
+        from ..monitors import cli_plumb
+        d = os.path.join(run.workdir, f"cli15c_{run.shard}_{i}")
+        os.makedirs(d, exist_ok=True)
+        pin, pout = os.path.join(d, "Smp.cns"), os.path.join(d, "Smp.call.cns")
+        c2 = dict(cols)
+        c2["probes"] = [5] * len(cols["log2"])
+        if "weight" not in c2:
+            c2["weight"] = [1.0] * len(cols["log2"])
+        with run.monitor_scope():
+            tabio.write(make_cna(c2, meta={"sample_id": "Smp"}), pin)
+        est = ["median", "mean", "mode", "biweight"][(i // 6) % 4]
+        low = bool((i // 24) % 2)
+        argv = ["call", pin, "-o", pout, "--center", est, "-m", "none"] + (["--drop-low-coverage"] if low else [])
+        r = cli_plumb.check_cli(run, rt, CopyNumArray, "center_all", argv, dict(estimator=est, by_chrom=True, skip_low=low, diploid_parx_genome=None), "call-center")
+        if r is not None:
+            cli_plumb.held(run, "call-center", f"cli-call-center:{est}")
+        import shutil
+        shutil.rmtree(d, ignore_errors=True)
     if i % 6 == 0:
         # the `sex` sub-command on a written file: -y must reach the inference, the report must name this file and state the generated sex
         import csv
@@ -148,6 +171,6 @@ def case_sex(run, i):
 
 
 WORKLOADS = {"center": (_n_center, case_center), "sex": (_n_sex, case_sex)}
-_Q = {"cli.sex[report]|held": 40, "CopyNumArray.center_all|held": 1500, "CopyNumArray.guess_xx|held": 600, "CopyNumArray.compare_sex_chromosomes|held": 1200,
+_Q = {"cli.sex[report]|held": 40, "cli.call-center[plumbing]|held": 40, "CopyNumArray.center_all|held": 1500, "CopyNumArray.guess_xx|held": 600, "CopyNumArray.compare_sex_chromosomes|held": 1200,
       "commands.do_sex|held": 600, "CopyNumArray.shift_xx|held": 1800, "CopyNumArray.expect_flat_log2|held": 1200}
 QUOTAS = {"quick": _Q, "thorough": _Q}
